@@ -234,7 +234,7 @@ theorem xePrompt_bytes {p : Bytes} (hp : XePrompt p) :
     pattern searches line by line with `iosxeP` (the sampled fact) and the prompt fits the window. -/
 theorem iosxe_fits (cfg : Cfg) (out : Bytes → Bytes) {p : Bytes} (hp : XePrompt p)
     (hS : ∀ x, cfg.prompt.search x = (splitNL x).any iosxeP)
-    (hstrict : cfg.rough = false) (hret : cfg.ret = [NL]) (hwin : p.length < cfg.depth) :
+    (hstrict : cfg.rough = false) (hret : IsRet cfg.ret) (hwin : p.length < cfg.depth) :
     Fits iosxeP cfg { out := out, prompt := p, trail := [] } where
   search_lines := hS
   strict := hstrict
